@@ -39,7 +39,8 @@ func c11DocTrigger(ext string, doc []byte) bool {
 	case "typographer":
 		return bytes.ContainsAny(doc, "'\"-.<>")
 	case "linkify":
-		return bytes.ContainsAny(doc, ":@") || bytes.Contains(bytes.ToLower(doc), []byte("www."))
+		// the statement names the literal characters: 'www.' in lower case
+		return bytes.ContainsAny(doc, ":@") || bytes.Contains(doc, []byte("www."))
 	}
 	// CJK variants: pure ASCII without backslash-space
 	for _, c := range doc {
@@ -84,7 +85,7 @@ var c11Exts = []extSpec{
 	{"deflist", hasAny(":"), "x:linkify,table,strike,tasklist,footnote,typographer"},
 	{"typographer", hasAny("'\"-.<>"), "x:linkify,table,strike,tasklist,deflist,footnote"},
 	{"linkify", func(t string) bool {
-		return strings.ContainsAny(t, ":@") || strings.Contains(strings.ToLower(t), "www.") || t == "w" || t == "."
+		return strings.ContainsAny(t, ":@") || strings.Contains(t, "www.") || t == "w" || t == "."
 	}, "x:table,strike,tasklist,deflist,footnote,typographer"},
 }
 
@@ -94,7 +95,7 @@ var c11OptExts = []extSpec{
 	{"footnote-opt", func(t string) bool { return strings.Contains(t, "[^") || t == "[" || t == "^" }, ""},
 	{"table-opt", hasAny("-"), ""},
 	{"linkify-opt", func(t string) bool {
-		return strings.ContainsAny(t, ":@") || strings.Contains(strings.ToLower(t), "www.") || t == "w" || t == "."
+		return strings.ContainsAny(t, ":@") || strings.Contains(t, "www.") || t == "w" || t == "."
 	}, ""},
 	{"typographer-opt", hasAny("'\"-.<>"), ""},
 	{"typo.all.nil", hasAny("'\"-.<>"), ""},
@@ -103,6 +104,15 @@ var c11OptExts = []extSpec{
 }
 
 var c11Alpha = core.Union(core.ABlock, core.AInline, core.AExt, []string{"'", ".", "\t", "^", "{", "}", "go/x", "wwx"})
+
+// c11AlphaFor adds, for Linkify, host names that differ from its trigger only in letter case (the statement names the
+// literal lower-case 'www.').
+func c11AlphaFor(ext string) []string {
+	if strings.HasPrefix(ext, "linkify") {
+		return core.Union(c11Alpha, []string{"WWW.a.bc", "Www.A.BC/d"})
+	}
+	return c11Alpha
+}
 
 // c11Pollute builds and uses, once per worker, differently configured instances of the same extensions (option-bearing
 // constructors, extension options passed as parser / renderer options next to the package-level extension values): "no
@@ -138,7 +148,7 @@ func c11Case(s *core.Sub, base, with *core.Conv, word []byte, ext string, tmp *[
 func runC11(r *core.Run) {
 	n := core.Pick(r, 4, 5)
 	for _, e := range c11Exts {
-		toks := core.Without(c11Alpha, e.trigger)
+		toks := core.Without(c11AlphaFor(e.name), e.trigger)
 		for _, baseName := range []string{"core", e.others} {
 			base := core.MustCfg(baseName)
 			withName := "x:" + e.name
@@ -165,7 +175,7 @@ func runC11(r *core.Run) {
 		c11Structured(r, e.name, core.MustCfg("core"), core.MustCfg("x:"+e.name))
 	}
 	for _, e := range c11OptExts {
-		toks := core.Without(c11Alpha, e.trigger)
+		toks := core.Without(c11AlphaFor(e.name), e.trigger)
 		for _, bn := range []string{"core", "core+unsafe+xhtml"} {
 			base, with := core.MustCfg(bn), core.MustCfg("x:"+e.name+strings.TrimPrefix(bn, "core"))
 			wordsSub(r, fmt.Sprintf("%s/base=%s", e.name, bn),
